@@ -22,6 +22,11 @@ pub struct C02;
 impl Prop for C02 {
     type Case = Case;
     const ID: &'static str = "C02";
+    const FUZZ_TARGET: Option<&'static str> = Some("bpe_roundtrip");
+    const FUZZ_RUNS: u64 = 1200000;
+    fn fuzz_decode(bytes: &[u8]) -> Option<Case> {
+        crate::fuzzdec::c02(bytes)
+    }
     const RULE: &'static str = "random well-formed merge tables (<= 48 merges) x texts mixing words over the table alphabet with arbitrary Unicode fragments, whitespace runs of all White_Space code points, leading/trailing whitespace x max_vocab_size x special configs with prefix/suffix x use_graphemes; oracle: decode(encode(s)) is a prefix of s whose remainder is whitespace only (equal if s has no trailing whitespace), ids < vocab_size, prefix/suffix ids frame the output, concatenated table byte strings are valid UTF-8 and equal the decoded text. Non-trivial: some emitted id >= 256 and (inner whitespace run >= 2 characters, trailing whitespace, or a multi-byte character split across tokens). Distinct = distinct serialised case.";
     const ESSENTIAL: &'static [&'static str] = &["merged_id", "trailing_ws", "multibyte_split", "prefix_suffix"];
 
